@@ -455,7 +455,20 @@ impl<T: Clone> RawTable<T> {
         if self.table.is_empty() {
             self.table.clear_no_drop();
         }
-        self.table.clone_from_with_hasher(&source.table, &hasher);
+        // If cloning or hashing an element panics while hashbrown fills our re-used allocation, its
+        // own clean-up calls `clear`, which again does nothing because the element count is only
+        // set at the very end. The control bytes written so far would then claim slots that `len`
+        // knows nothing about. Make sure such an unwind leaves an empty table behind (leaking the
+        // clones made so far).
+        struct WipeOnUnwind<'a, T>(&'a mut raw::RawTable<T>);
+        impl<T> Drop for WipeOnUnwind<'_, T> {
+            fn drop(&mut self) {
+                self.0.clear_no_drop();
+            }
+        }
+        let guard = WipeOnUnwind(&mut self.table);
+        guard.0.clone_from_with_hasher(&source.table, &hasher);
+        mem::forget(guard);
         // Since we're doing the work of cloning anyway, we might as well carry the leftovers.
         and_carry_with_hasher(&mut self.table, &source.leftovers, hasher);
     }
